@@ -25,6 +25,7 @@ RULE = (
     "while it is in flight, or expiry/eviction happens while it is in flight; distinct = distinct program"
 )
 RULE += '; template: the least recently used key still in flight when the cache overflows'
+RULE += '; template: an expired key computed anew beside a newer in-flight key in a full cache'
 LEVEL_TEXT = (
     "Exhaustive single-fault injection per generated program: every caller is cancelled at every loop iteration of the "
     "program's deterministic schedule; each run is judged by history predicates (sharing obligation, outcome of the "
@@ -430,7 +431,25 @@ def strategy(tier):
         invs = [{"dur": 5, "out": "value"}] + [{"dur": 0, "out": "value"} for _ in range(limit)] + [{"dur": 0, "out": "value"}]
         return {"limit": limit, "exp": None, "method": draw(st.booleans()), "callers": callers, "invs": invs, "inject": None, "in_scope": draw(st.booleans())}
 
-    return st.one_of(cases(), cases(), cases(), stale_completion(), evict_then_rejoin(), two_late(), pending_at_lru_end())
+    @st.composite
+    def expired_neighbour(draw):
+        """a full cache where one key has EXPIRED and is computed anew while the other key's invocation - newer, unexpired -
+        is still in flight: replacing the expired entry is not an insertion of one more key, nobody is evicted for it and
+        the in-flight invocation keeps being shared"""
+        limit = draw(st.sampled_from([2, 2, 3]))
+        callers = [{"key": 0, "at": 0}]  # done at once, expires at 1.0
+        if limit == 3:
+            callers.append({"key": 2, "at": 0.5})
+        callers += [
+            {"key": 1, "at": 0.75},  # long running
+            {"key": 0, "at": 0.875},  # hit: key 1 is now the least recently used one
+            {"key": 0, "at": 1.125},  # expired: a new invocation replaces the entry
+            {"key": 1, "at": draw(st.sampled_from([1.25, 1.5]))},  # unexpired, in flight: joins
+        ]
+        invs = [{"dur": 0, "out": "value"}, *([{"dur": 0, "out": "value"}] if limit == 3 else []), {"dur": 5, "out": "value"}, {"dur": 0, "out": "value"}, {"dur": 0, "out": "value"}]
+        return {"limit": limit, "exp": 1, "method": draw(st.booleans()), "callers": callers, "invs": invs, "inject": None, "in_scope": draw(st.booleans())}
+
+    return st.one_of(cases(), cases(), cases(), stale_completion(), evict_then_rejoin(), two_late(), pending_at_lru_end(), expired_neighbour())
 
 
 def budget(tier):
